@@ -18,9 +18,13 @@ PROPS = {
 }
 
 
-def gen_cfg(family, outfile, n):
-    return ("SPECIFICATION Spec\nCONSTANTS\n  Family = \"%s\"\n  OutFile = \"%s\"\n  SampleN = %d\n"
-            "INVARIANTS LawC01 LawNoNegative LawC03Amount\nPOSTCONDITION Emit\nCHECK_DEADLOCK FALSE\n") % (family, outfile, n)
+def gen_cfg(family, outfile, n, part=0):
+    return ("SPECIFICATION Spec\nCONSTANTS\n  Family = \"%s\"\n  OutFile = \"%s\"\n  SampleN = %d\n  Half = %d\n"
+            "INVARIANTS LawC01 LawNoNegative LawC03Amount\nPOSTCONDITION Emit\nCHECK_DEADLOCK FALSE\n") % (family, outfile, n, part)
+
+
+# the two big exhaustive families are generated, replayed and judged in three parts (by send amount) that run in parallel
+SPLIT = {"src1": ("src1#1", "src1#2", "src1#3"), "dst1": ("dst1#1", "dst1#2", "dst1#3")}
 
 
 def obs_cfg(resfile):
@@ -69,14 +73,18 @@ def _unconfirmed(ctx, fam, sites):
 
 def family_run(ctx, fam, binp):
     thorough = ctx.tier == "thorough"
+    unit, part = fam, 0
+    if "#" in fam:
+        fam, p = fam.split("#")
+        part = int(p)
     n = FAMILIES[fam][1 if thorough else 0]
-    cases = ctx.path("cases-%s.ndjson" % fam)
+    cases = ctx.path("cases-%s.ndjson" % unit.replace("#", "-"))
     if fam == "corrupt":
         # corrupted renderings of the model's programs: generated from the cases of two families
         g = ctx.tlc("NumscriptProgGen", "SPECIFICATION Spec\nCONSTANTS\n  OutFile = \"%s\"\n  SampleN = 0\nPOSTCONDITION Emit\nCHECK_DEADLOCK FALSE\n" % cases,
                     "gen-corrupt-a", workers=4, timeout=2400)
         cases2 = ctx.path("cases-corrupt-b.ndjson")
-        g2 = ctx.tlc("NumscriptGen", gen_cfg("dst1", cases2, 0).replace("INVARIANTS LawC01 LawNoNegative LawC03Amount\n", ""), "gen-corrupt-b", workers=4, timeout=2400)
+        g2 = ctx.tlc("NumscriptGen", gen_cfg("dst1", cases2, 0, 1).replace("INVARIANTS LawC01 LawNoNegative LawC03Amount\n", ""), "gen-corrupt-b", workers=4, timeout=2400)
         if g["status"] != "ok" or g2["status"] != "ok":
             raise Infra("generation for the corrupt family failed")
         with open(cases, "a") as f:
@@ -94,31 +102,35 @@ def family_run(ctx, fam, binp):
         g = ctx.tlc("NumscriptProgGen", "SPECIFICATION Spec\nCONSTANTS\n  OutFile = \"%s\"\n  SampleN = %d\nINVARIANTS LawRejectedWhole LawNeverOverdrawn\nPOSTCONDITION Emit\nCHECK_DEADLOCK FALSE\n" % (cases, n),
                     "gen-" + fam, workers=4, timeout=2400, extra=["-seed", str(ctx.seed)])
     else:
-        g = ctx.tlc("NumscriptGen", gen_cfg(fam, cases, n), "gen-" + fam, workers=4, timeout=2400,
+        g = ctx.tlc("NumscriptGen", gen_cfg(fam, cases, n, part), "gen-" + unit.replace("#", "-"), workers=4, timeout=2400,
                     extra=["-seed", str(ctx.seed)])
     if g["status"] != "ok":
         raise Infra("Numscript reference semantics violates its own law %s on family %s - specification error" % (g.get("invariant"), fam))
     if not os.path.exists(cases) or os.path.getsize(cases) == 0:
         raise Infra("no cases emitted for family " + fam)
-    res = ctx.path("results-%s.ndjson" % fam)
-    crash = harness_or_crash(ctx, [binp, "-in", cases, "-out", res, "-stats", ctx.path("stats-%s.json" % fam)], fam)
+    tag = unit.replace("#", "-")
+    res = ctx.path("results-%s.ndjson" % tag)
+    crash = harness_or_crash(ctx, [binp, "-in", cases, "-out", res, "-stats", ctx.path("stats-%s.json" % tag)], fam)
     if crash:
         return fam, g, None, [("C12_NoPanicNoHang", crash)], {"C12_NoPanicNoHang": 1}, {"cases": 0, "distinct_programs": 0, "classes": {}}
-    o = ctx.tlc("NumscriptObs", obs_cfg(res), "obs-" + fam, workers=1, timeout=2400)
+    o = ctx.tlc("NumscriptObs", obs_cfg(res), "obs-" + tag, workers=1, timeout=2400)
     if o["status"] != "ok" or "OBS-VERDICT" not in o["output"]:
         raise Infra("NumscriptObs did not deliver a verdict on %s (%s)" % (fam, o["status"]))
     verdict = o["output"].split("OBS-VERDICT", 1)[1].split("OBS-COUNTS")[0]
     found = [(m.group(1), int(m.group(2))) for m in re.finditer(r'<<"(\w+)", (\d+)>>', verdict)]
     counts = dict((m.group(1), int(m.group(2))) for m in re.finditer(r'(\w+) \|-> (\d+)', o["output"].split("OBS-COUNTS", 1)[1]))
-    return fam, g, res, found, counts, json.load(open(ctx.path("stats-%s.json" % fam)))
+    return fam, g, res, found, counts, json.load(open(ctx.path("stats-%s.json" % tag)))
 
 
 def run_prop(ctx, prop):
     P = PROPS[prop]
     binp = ctx.build("nsconf")
     from concurrent.futures import ThreadPoolExecutor
-    with ThreadPoolExecutor(max_workers=4) as pool:
-        outs = list(pool.map(lambda f: family_run(ctx, f, binp), P["families"]))
+    units = [u for f in P["families"] for u in SPLIT.get(f, (f,))]
+    # the long ones first
+    units.sort(key=lambda u: 0 if u.startswith(("dst1", "src1", "prog")) else 1)
+    with ThreadPoolExecutor(max_workers=8) as pool:
+        outs = list(pool.map(lambda f: family_run(ctx, f, binp), units))
     total = distinct = states = 0
     classes = {}
     samples = []
